@@ -559,6 +559,36 @@ def job_heads(iso):
                 vs.append(violation("head_override_reaches_named_cell", {"iso3": iso, "species": a + "+" + b},
                                     "%s: options {%s_head: %d, %s_head: %d} (in this order) -> herd model reads %s_head=%r, %s_head=%r; cells changed: %s" % (
                                         iso, a, va, b, vb, a, float(s1[a + "_head"]), b, float(s1[b + "_head"]), changed), {"kind": "heads", "iso3": iso}))
+        # the override must reach EVERY herd-model evaluation of a complete run (one per round), not only the first
+        from src.scenarios.run_model_no_trade import ScenarioRunnerNoTrade
+        calls = []
+
+        def spy_all(stock, attrs):
+            calls.append(stock.copy())
+            return orig(stock, attrs)
+        ap.AnimalModelBuilder.create_animal_objects = spy_all
+        for sp in ("chicken", "meat_cattle"):
+            col = sp + "_head"
+            value = int(float(s0[col])) // 3 + 777
+            o = options.clean(options.preset("yaml_net_baseline"))
+            o["NMONTHS"] = 48
+            o[col] = value
+            del calls[:]
+            n += 1
+            try:
+                with common.quiet():
+                    ScenarioRunnerNoTrade().run_model_no_trade(title="c13_full_%s" % iso, create_pptx_with_all_countries=False, show_country_figures=False,
+                                                               show_map_figures=False, add_map_slide_to_pptx=False, scenario_option=o,
+                                                               countries_list=[iso], return_results=True)
+            except Exception as e:
+                vs.append(violation("head_override_reaches_named_cell", {"iso3": iso, "species": sp, "run": "complete"},
+                                    "%s: complete run with %s=%d fails: %r" % (iso, col, value, e), {"kind": "heads", "iso3": iso}))
+                continue
+            seen_vals = [float(c[col]) for c in calls]
+            if not calls or any(v != value for v in seen_vals):
+                vs.append(violation("head_override_reaches_named_cell", {"iso3": iso, "species": sp, "run": "complete"},
+                                    "%s: complete run with %s=%d: the %d herd-model evaluations of the run started from %s" % (iso, col, value, len(calls), seen_vals),
+                                    {"kind": "heads", "iso3": iso}))
     finally:
         ap.AnimalModelBuilder.create_animal_objects = orig
     return {"n": n, "v": vs}
